@@ -10,8 +10,8 @@
        stay opaque letters;
      * teq_filter_dep : a set of pairwise DEPENDENT letters keeps its subsequence (relative
        order) under ~ ;
-     * trace_equiv_b : executable checker, proved SOUND ([trace_equiv_b c1 c2 = true -> c1 ~ c2]);
-       soundness is all that is claimed (a [false] is "no certificate", not a refutation);
+     * trace_equiv_b : executable checker, proved SOUND ([trace_equiv_b c1 c2 = true -> c1 ~ c2])
+       and, for a reflexive letter equality, COMPLETE (trace_equiv_b_iff: it decides ~);
      * a concrete gate alphabet  (id, qubits, kind)  with  independence = disjoint supports.   *)
 From Coq Require Import List Bool Arith Lia Permutation Morphisms Setoid.
 Import ListNotations.
@@ -220,6 +220,46 @@ Section Trace.
       + apply extract_sound; eauto.
       + constructor. apply teq_sym. apply IH; auto.
   Qed.
+
+  (* completeness: with a reflexive [eqb] the checker decides ~ (so [false] refutes equivalence) *)
+  Hypothesis eqb_refl : forall a, eqb a a = true.
+
+  Lemma extract_teq a m1 m2 : teq m1 m2 -> forall r1, extract a m1 = Some r1 ->
+    exists r2, extract a m2 = Some r2 /\ teq r1 r2.
+  Proof.
+    induction 1 as [|x l l' H IH|x y l Hxy|l l' l'' H1 IH1 H2 IH2]; intros r1 E.
+    - discriminate.
+    - simpl in *. destruct (eqb a x).
+      + inversion E; subst. eauto.
+      + destruct (indep a x); [|discriminate].
+        destruct (extract a l) as [r|] eqn:Er; [|discriminate]. inversion E; subst.
+        destruct (IH r eq_refl) as [r2 [E2 T2]]. rewrite E2. eexists; split; eauto.
+        constructor; auto.
+    - simpl in *. destruct (eqb a x) eqn:Eax.
+      + inversion E; subst. apply eqb_eq in Eax. subst x.
+        destruct (eqb a y) eqn:Eay.
+        * apply eqb_eq in Eay. subst y. eexists; split; eauto. apply teq_refl.
+        * rewrite ?Hxy. cbn [extract]. rewrite ?eqb_refl. eexists; split; eauto. apply teq_refl.
+      + destruct (indep a x) eqn:Iax; [|discriminate].
+        destruct (eqb a y) eqn:Eay.
+        * inversion E; subst. eexists; split; eauto. apply teq_refl.
+        * destruct (indep a y) eqn:Iay; [|discriminate].
+          destruct (extract a l) as [r|] eqn:Er; [|discriminate]. inversion E; subst.
+          eexists; split; eauto. apply teq_swap; auto.
+    - destruct (IH1 r1 E) as [r2 [E2 T2]]. destruct (IH2 r2 E2) as [r3 [E3 T3]].
+      exists r3. split; auto. eapply teq_trans; eauto.
+  Qed.
+
+  Theorem trace_equiv_b_complete c1 c2 : teq c1 c2 -> trace_equiv_b c1 c2 = true.
+  Proof.
+    revert c2. induction c1 as [|a c1 IH]; intros c2 H.
+    - apply teq_nil_inv in H. subst. reflexivity.
+    - simpl. assert (extract a (a :: c1) = Some c1) as E by (simpl; now rewrite eqb_refl).
+      destruct (extract_teq a _ _ H c1 E) as [r2 [E2 T2]]. rewrite E2. apply IH; auto.
+  Qed.
+
+  Theorem trace_equiv_b_iff c1 c2 : trace_equiv_b c1 c2 = true <-> teq c1 c2.
+  Proof. split; [apply trace_equiv_b_sound | apply trace_equiv_b_complete]. Qed.
 End Trace.
 
 Arguments teq {A} indep _ _.
@@ -392,6 +432,23 @@ Proof.
   apply trace_equiv_b_sound.
   - apply sindep_sym.
   - intros a b H. now apply gate_eqb_eq.
+Qed.
+
+(* the checkers decide the equivalence: [false] means the two words are NOT equivalent *)
+Theorem gtrace_equiv_b_iff c1 c2 : gtrace_equiv_b c1 c2 = true <-> gteq c1 c2.
+Proof.
+  apply trace_equiv_b_iff.
+  - apply sindep_sym.
+  - intros a b H. now apply gate_eqb_eq.
+  - apply gate_eqb_refl.
+Qed.
+
+Theorem gtrace_equivn_b_iff n c1 c2 : gtrace_equivn_b n c1 c2 = true <-> gteqn n c1 c2.
+Proof.
+  apply trace_equiv_b_iff.
+  - apply sindep_sym.
+  - intros a b H. now apply gate_eqb_eq.
+  - apply gate_eqb_refl.
 Qed.
 
 (* non-vacuity: two equivalent and two inequivalent words *)
